@@ -585,8 +585,11 @@ def contextOfJson (ty : Option SchemaType) (j : Json) : R (List (String × Value
     | _ => .error .notRecord
   | _ => .error .notRecord
 
-/-- `Context::to_json_value`: the top-level record is not checked for reserved keys (its values are) -/
+/-- `Context::to_json_value`: the top-level record is checked for reserved keys like any nested record
+    (since /repo commit 8968c46 `fix: Context::to_json_value refuses reserved keys at the top level`; before
+    that repair only its values were checked — the defect this check found). -/
 def contextToJson (ctx : List (String × Value)) : R Json :=
+  if hasReservedKey ctx then .error .reserved else
   match fromValueKVsWith canonRepr ctx with
   | .ok cs => .ok (.obj (CJ.toJsonKVs cs))
   | .error e => .error e
